@@ -138,9 +138,19 @@ def discharge(ob, tier="quick", want_model=True):
     s = _solver(ob.pc, goal, rl)
     r = s.check()
     ob.backend = "z3-%s(api)" % z3.get_version_string()
+    spurious = False
+    if r == z3.sat:
+        # guard against a spurious `sat` (observed with z3 5.1.0 on chains of Store over Lambda arrays): a model that
+        # makes the GOAL true does not refute the obligation; such an answer is treated as `unknown`
+        try:
+            m_ = s.model()
+            if z3.is_true(m_.eval(goal, model_completion=True)) and not _has_quant([], goal):
+                spurious = True
+        except Exception:
+            pass
     if r == z3.unsat:
         ob.status = "proved"
-    elif r == z3.sat:
+    elif r == z3.sat and not spurious:
         ob.status = "failed"
         if want_model:
             try:
@@ -150,7 +160,8 @@ def discharge(ob, tier="quick", want_model=True):
                 ob.model = {}
     else:
         ob.status = "unknown"
-        ob.detail = s.reason_unknown()
+        ob.detail = "solver said sat but its model satisfies the goal (spurious counter-model)" if spurious \
+            else s.reason_unknown()
         if tier != "canary":
             # quantifier instantiation is sensitive to term numbering inherited from earlier queries of this
             # process: re-ask in a fresh context and with other seeds before giving up (same rlimit each time)
